@@ -369,4 +369,42 @@ pub assume_specification [std::string::String::truncate] (s: &mut String, n: usi
     requires n >= vstd::utf8::encode_utf8(old(s)@).len() || exists|i: int| 0 <= i <= old(s)@.len() && vstd::utf8::encode_utf8(#[trigger] old(s)@.subrange(0, i)).len() == n,
     ensures n >= vstd::utf8::encode_utf8(old(s)@).len() ==> final(s)@ == old(s)@,
             forall|i: int| 0 <= i <= old(s)@.len() && vstd::utf8::encode_utf8(#[trigger] old(s)@.subrange(0, i)).len() == n ==> final(s)@ == old(s)@.subrange(0, i);
+
+// ---- N9: `write!(buf, "lit{}lit..", args..)` into a BytesMut with plain `{}` placeholders only
+pub broadcast axiom fn as_ref_str_cow<'a>(k: &Cow<'a, str>) ensures #[trigger] as_ref_img::<Cow<'a, str>, str>(k)@ == cow_view(*k);
+/// one piece of formatted output whose Display is its text (str, String, Cow<str>): BytesMut's fmt::Write appends the UTF-8 bytes
+/// (it fails only when the buffer would exceed usize::MAX bytes)
+#[verifier::external_body]
+pub fn vx_put_str<S: AsRef<str>>(b: &mut BytesMut, s: S)
+    ensures bm_view(final(b)) == bm_view(old(b)) + vstd::utf8::encode_utf8(as_ref_str(&s))
+{ b.put_slice(s.as_ref().as_bytes()) }
+/// decimal digits of an unsigned integer (what Display writes), uninterpreted except through dec_digits_spec
+pub uninterp spec fn dec_text(n: nat) -> Seq<char>;
+#[verifier::external_body]
+pub fn vx_put_u64(b: &mut BytesMut, n: u64)
+    ensures bm_view(final(b)) == bm_view(old(b)) + vstd::utf8::encode_utf8(dec_text(n as nat))
+{ use std::fmt::Write; write!(b, "{}", n).unwrap() }
+#[verifier::external_body]
+pub fn vx_put_usize(b: &mut BytesMut, n: usize)
+    ensures bm_view(final(b)) == bm_view(old(b)) + vstd::utf8::encode_utf8(dec_text(n as nat))
+{ use std::fmt::Write; write!(b, "{}", n).unwrap() }
+pub fn vx_fmt_ok() -> (r: Result<(), std::fmt::Error>) ensures r is Ok { Ok(()) }
+/// N10 wrapper for `str::replace` with a char pattern: every occurrence of `c` becomes `to`
+pub open spec fn replace_char(s: Seq<char>, c: char, to: Seq<char>) -> Seq<char>
+    decreases s.len()
+{ if s.len() == 0 { seq![] } else if s[0] == c { to + replace_char(s.skip(1), c, to) } else { seq![s[0]] + replace_char(s.skip(1), c, to) } }
+#[verifier::external_body]
+pub fn vx_str_replace_char(s: &str, c: char, to: &str) -> (r: String) ensures r@ == replace_char(s@, c, to@) { s.replace(c, to) }
+#[verifier::external_body]
+pub fn vx_string_replace_char(s: String, c: char, to: &str) -> (r: String) ensures r@ == replace_char(s@, c, to@) { s.replace(c, to) }
+/// `str::contains` with a char pattern
+#[verifier::external_body]
+pub fn vx_str_contains_char(s: &str, c: char) -> (r: bool) ensures r == (exists|i: int| 0 <= i < s@.len() && s@[i] == c) { s.contains(c) }
+
+/// `Into<String>` of a generic value: the text it converts to (fixed for &str and String below)
+pub uninterp spec fn into_string_view<V>(v: V) -> Seq<char>;
+pub broadcast axiom fn into_string_view_str(v: &str) ensures #[trigger] into_string_view::<&str>(v) == v@;
+pub broadcast axiom fn into_string_view_string(v: String) ensures #[trigger] into_string_view::<String>(v) == v@;
+#[verifier::external_body]
+pub fn vx_into_string<V: Into<String>>(v: V) -> (r: String) ensures r@ == into_string_view(v) { v.into() }
 }
